@@ -10,7 +10,7 @@ Verdict(ev) ==
     ELSE IF ev.k = "replicate"
     THEN IF ~ev.ok THEN "replicate-refused" ELSE IF GoodReplica(ev) THEN "ok" ELSE "bad-replica"
     ELSE IF MustRefuse(ev) THEN (IF ev.ok THEN "accepted-must-refuse" ELSE "ok")
-    ELSE IF ev.path \in {"lib", "lib-data", "lib-options"}
+    ELSE IF ev.path \in {"lib", "lib-data", "lib-options", "lib-stamps-data"}
     THEN IF ~ev.ok THEN "refused-valid-request" ELSE IF GoodCorrection(ev) THEN "ok" ELSE "bad-correction"
     \* the other entry points also validate the result, which may need extensions the definitions only offer:
     \* a refusal is then allowed; a success must be a good and valid correction
